@@ -42,7 +42,170 @@ def execute(prop, scenario, params, streams=None):
         return execute_c09(scenario, params, streams)
     if prop == "C10":
         return execute_c10(scenario, params, streams)
+    if prop == "C11":
+        return execute_c11(scenario, params, streams)
     return execute_generic(prop, scenario, params, streams)
+
+
+def _c11_play(scenario, sigma, params, streams, perm_seed):
+    """Execute the scenario under one schedule sigma; returns the strict
+    UUID-free canonical dump (addresses and temporary-label names included)
+    or ('abort', ...)."""
+    import random
+
+    from . import build, canon, driver, gen, observe, oracles
+
+    core.reseed(sigma["uuid_seed"], sigma["salt"])
+    world, model = build.build(scenario["module"])
+    obs = observe.Obs(world, model)
+    oracles.align_model(world, model, obs, "C11")
+    if not gen.module_shape_ok(model) or not gen.module_desc_ok(scenario["module"]):
+        raise core.Rejected("module violates the generator's shape preconditions")
+    shape = lambda m, sd: gen.shape_ok(m, sd, params) and gen.ops_allowed(m, sd)
+    n = scenario.get("plan", {}).get("nsessions", len(scenario["sessions"])) if streams else len(scenario["sessions"])
+    nperm = 0
+    for si in range(n):
+        gen_cb = None
+        if si < len(scenario["sessions"]):
+            sdesc = scenario["sessions"][si]
+        else:
+            sdesc = None
+            hist = streams.get(f"gen.session.{si}")
+
+            def gen_cb(m, hist=hist, si=si):
+                return gen.gen_session(hist, m, params, si)
+
+        if sdesc is not None and perm_seed is not None and not any(op["k"] in ("reg", "insfn") for op in sdesc["ops"]):
+            # permute the registration order of modifications that target
+            # different blocks (order inside one block is kept)
+            spans, att = driver.real_view(world, model)
+            model.begin_session(spans, att)
+            groups = {}
+            for oi, op in enumerate(sdesc["ops"]):
+                try:
+                    key = driver.expand_op(model, op)[0][0]
+                except Exception:
+                    key = ("?", oi)
+                groups.setdefault(key, []).append(oi)
+            model.end_session()
+            keys = sorted(groups, key=str)
+            random.Random(core.derive(perm_seed, si)).shuffle(keys)
+            order = [oi for k in keys for oi in groups[k]]
+            if order != list(range(len(order))):
+                nperm += 1
+            sdesc = dict(sdesc)
+            sdesc["reg_order"] = order
+        sess = driver.run_session(world, model, sdesc, "C11", si, gen_cb=gen_cb, check_shape=shape)
+        if si >= len(scenario["sessions"]):
+            scenario["sessions"].append(sess.desc)
+        if sess.error is not None:
+            return ("abort", type(sess.error).__name__, str(sess.error)[:200]), nperm, False
+        driver.apply_to_model(sess)
+        model.end_session()
+        obs = observe.Obs(world, model)
+        oracles.align_model(world, model, obs, "C11")
+    return canon.dump(world, strip_temp=False, with_addresses=True, unit_names=True), nperm, bool(getattr(model, "reordered_ever", False))
+
+
+def execute_c11(scenario, params, streams=None):
+    """C11: the same scenario under K schedules (UUID stream, node-hash
+    salt, PYTHONHASHSEED, permuted registration order of modifications at
+    different blocks) must give the same module up to UUID renaming."""
+    from .. import helpers
+    from . import canon
+
+    stats = collections.Counter()
+    params = dict(params)
+    params["_isa"] = scenario["module"]["isa"]
+    params["_fmt"] = scenario["module"]["fmt"]
+    sigma = scenario["sigma"]
+    meta = {"sigma": core.digest(sigma), "interleavings": []}
+    if params.get("dump_only"):
+        # helper mode: one execution under params['use_sigma']
+        try:
+            d, nperm, reord = _c11_play(scenario, params["use_sigma"], params, None, params.get("perm_seed"))
+        except core.Rejected as e:
+            return {"verdict": core.Verdict.REJECTED, "why": str(e), "stats": {}, "meta": meta}
+        except core.Desync as e:
+            return {"verdict": core.Verdict.DESYNC, "why": str(e)[:300], "stats": {}, "meta": meta}
+        return {"verdict": core.Verdict.OK, "stats": {}, "dump": d if params.get("want_dump") else None, "dump_digest": core.digest(d), "nperm": nperm, "reordered": reord, "meta": meta}
+    try:
+        base, _, reord0 = _c11_play(scenario, sigma, params, streams, None)
+        scenario["plan"] = {"nsessions": len(scenario["sessions"])}
+        stats["executions"] += 1
+        stats["ops"] += sum(len(s["ops"]) for s in scenario["sessions"])
+        if "alts" not in scenario:
+            r = streams.get("sched.alts")
+            k = params.get("k", 4)
+            alts = []
+            for j in range(k - 1):
+                alts.append(
+                    {
+                        "uuid_seed": r.getrandbits(48),
+                        "salt": r.getrandbits(64),
+                        "hashseed": (sigma["hashseed"] + (j + 1 if r.random() < params.get("other_hashseed_p", 0.5) else 0)) % core.HASHSEED_CLASSES,
+                        "perm_seed": r.getrandbits(32) if r.random() < 0.7 else None,
+                    }
+                )
+            scenario["alts"] = alts
+        base_digest = core.digest(base)
+        mine = helpers.my_hashseed()
+        for j, alt in enumerate(scenario["alts"]):
+            asig = {"uuid_seed": alt["uuid_seed"], "salt": alt["salt"], "hashseed": alt["hashseed"]}
+            stats["executions"] += 1
+            if alt["hashseed"] % core.HASHSEED_CLASSES == mine % core.HASHSEED_CLASSES:
+                d, nperm, reord = _c11_play(scenario, asig, params, None, alt.get("perm_seed"))
+                dd = core.digest(d)
+                stats["sched.same_hashseed"] += 1
+            else:
+                hp = dict(params)
+                hp.update({"dump_only": True, "use_sigma": asig, "perm_seed": alt.get("perm_seed"), "want_dump": False})
+                res = helpers.call(alt["hashseed"] % core.HASHSEED_CLASSES, {"op": "replay", "engine": "rwsim", "prop": "C11", "scenario": scenario, "params": hp})
+                if res.get("verdict") != core.Verdict.OK:
+                    raise core.Desync("helper run: " + str(res.get("why")))
+                dd, nperm, reord, d = res["dump_digest"], res["nperm"], res["reordered"], None
+                stats["sched.other_hashseed"] += 1
+            stats["sched.permuted_sessions"] += nperm
+            if dd != base_digest:
+                if d is None:
+                    hp["want_dump"] = True
+                    res = helpers.call(alt["hashseed"] % core.HASHSEED_CLASSES, {"op": "replay", "engine": "rwsim", "prop": "C11", "scenario": scenario, "params": hp})
+                    d = json.loads(json.dumps(res["dump"]))
+                    base_cmp = json.loads(json.dumps(base, default=str))
+                else:
+                    base_cmp = base
+                if isinstance(base, tuple) or isinstance(d, (tuple, list)) and d and d[0] == "abort":
+                    raise core.Violation("C11", "dump-diff", {"what": "one schedule aborts", "base": str(base)[:200], "alt": str(d)[:200], "alt_index": j}, {"part": "abort", "layout_reordered": bool(reord0 or reord)})
+                # differences other than addresses are reported first, so
+                # that the known layout finding cannot hide them
+                diff = canon.first_diff(_without_addr(base_cmp), _without_addr(d)) or canon.first_diff(base_cmp, d)
+                raise core.Violation(
+                    "C11",
+                    "dump-diff",
+                    {"first_difference": diff, "alt_index": j, "alt": alt},
+                    {"part": canon.part_of(diff), "layout_reordered": bool(reord0 or reord), "hashseed_differs": alt["hashseed"] != sigma["hashseed"], "permuted": bool(nperm)},
+                )
+        verdict = core.result_ok(dict(stats))
+    except core.Violation as v:
+        verdict = core.result_violation(v, dict(stats))
+    except core.Rejected as e:
+        verdict = {"verdict": core.Verdict.REJECTED, "why": str(e), "stats": dict(stats)}
+    except core.Desync as e:
+        verdict = {"verdict": core.Verdict.DESYNC, "why": str(e)[:500], "stats": dict(stats)}
+    meta["sdig"] = core.digest([scenario["module"], scenario["sessions"]])
+    meta["nontrivial"] = stats["ops"] > 0
+    verdict["meta"] = meta
+    return verdict
+
+
+def _without_addr(d):
+    import copy
+
+    d = copy.deepcopy(d)
+    for sec in d.get("sections", []):
+        for iv in sec["intervals"]:
+            iv.pop("addr", None)
+    return d
 
 
 def _empty_apply(world):
@@ -351,7 +514,7 @@ def execute_c09(scenario, params, streams=None):
                 obs = observe.Obs(world, model)
                 oracles.align_model(world, model, obs, "C09")
                 reordered = reordered or obs.reordered
-        return canon.dump(world, strip_temp=True, with_addresses=False), None, reordered, steps
+        return canon.dump(world, strip_temp=True, with_addresses=False, unit_names=True), None, reordered, steps
 
     try:
         n = scenario.get("plan", {}).get("nsessions", len(scenario["sessions"])) if streams else len(scenario["sessions"])
